@@ -54,6 +54,9 @@ pub enum FrontKind {
     /// the buffer-boundary cases of C05, not by the shared generators)
     AsyncBuf64,
     AsyncBuf255,
+    /// nb with a radio buffer of 64 / 255 bytes (board (14, 0) only)
+    NbBuf64,
+    NbBuf255,
 }
 
 impl FrontKind {
@@ -64,6 +67,8 @@ impl FrontKind {
             FrontKind::AsyncClassC => "async+classC",
             FrontKind::AsyncBuf64 => "async+classC/buf64",
             FrontKind::AsyncBuf255 => "async+classC/buf255",
+            FrontKind::NbBuf64 => "nb/buf64",
+            FrontKind::NbBuf255 => "nb/buf255",
         }
     }
     pub fn from_name(s: &str) -> FrontKind {
@@ -72,11 +77,24 @@ impl FrontKind {
             "async+classC" => FrontKind::AsyncClassC,
             "async+classC/buf64" => FrontKind::AsyncBuf64,
             "async+classC/buf255" => FrontKind::AsyncBuf255,
+            "nb/buf64" => FrontKind::NbBuf64,
+            "nb/buf255" => FrontKind::NbBuf255,
             _ => FrontKind::Async,
         }
     }
     pub fn is_async(self) -> bool {
-        !matches!(self, FrontKind::Nb)
+        !self.is_nb()
+    }
+    pub fn is_nb(self) -> bool {
+        matches!(self, FrontKind::Nb | FrontKind::NbBuf64 | FrontKind::NbBuf255)
+    }
+    /// size N of the device's radio buffer
+    pub fn buf_size(self) -> usize {
+        match self {
+            FrontKind::AsyncBuf64 | FrontKind::NbBuf64 => 64,
+            FrontKind::AsyncBuf255 | FrontKind::NbBuf255 => 255,
+            _ => 256,
+        }
     }
     pub fn class_c(self) -> bool {
         matches!(self, FrontKind::AsyncClassC | FrontKind::AsyncBuf64 | FrontKind::AsyncBuf255)
@@ -542,12 +560,12 @@ impl<const P: u8, const G: i8> nb_device::radio::PhyRxTx for NRadio<P, G> {
     }
 }
 
-pub struct NbFront<const P: u8, const G: i8> {
-    dev: nb_device::Device<NRadio<P, G>, ScriptRng, 256, 4>,
+pub struct NbFront<const P: u8, const G: i8, const N: usize = 256> {
+    dev: nb_device::Device<NRadio<P, G>, ScriptRng, N, 4>,
     env: Env,
 }
 
-impl<const P: u8, const G: i8> NbFront<P, G> {
+impl<const P: u8, const G: i8, const N: usize> NbFront<P, G, N> {
     pub fn new(cfg: &DevCfg, env: Env, session: Option<&Value>) -> Result<Self, String> {
         let mut dev = nb_device::Device::new(cfg.region_configuration(), NRadio::<P, G> { env: env.clone(), packet: vec![] }, ScriptRng(env.clone()));
         if let Some(v) = session {
@@ -587,6 +605,24 @@ impl<const P: u8, const G: i8> NbFront<P, G> {
                             1 => self.dev.handle_event(Event::TimeoutFired),
                             2 => self.dev.handle_event(Event::RadioEvent(nb_device::radio::Event::Phy(NbPhyEvent::RxDone))),
                             _ => self.dev.handle_event(Event::RadioEvent(nb_device::radio::Event::Phy(NbPhyEvent::TxComplete))),
+                        };
+                        continue;
+                    }
+                    // a packet that does not fit the device's radio buffer is refused with an error while the
+                    // window stays open: the application carries on feeding events
+                    if txt.contains("BufferTooSmall") && (phase == 1 || phase == 3) {
+                        self.env.push(Ev::Resp(format!("Err({txt})")));
+                        let slot = if phase == 1 { Slot::Rx1 } else { Slot::Rx2 };
+                        resp = match self.env.next_frame(slot) {
+                            Some(f) => {
+                                self.dev.get_radio().packet = f;
+                                last_event_was = 2;
+                                self.dev.handle_event(Event::RadioEvent(nb_device::radio::Event::Phy(NbPhyEvent::RxDone)))
+                            }
+                            None => {
+                                last_event_was = 1;
+                                self.dev.handle_event(Event::TimeoutFired)
+                            }
                         };
                         continue;
                     }
@@ -656,7 +692,7 @@ impl<const P: u8, const G: i8> NbFront<P, G> {
     }
 }
 
-impl<const P: u8, const G: i8> Front for NbFront<P, G> {
+impl<const P: u8, const G: i8, const N: usize> Front for NbFront<P, G, N> {
     fn env(&self) -> Env {
         self.env.clone()
     }
@@ -744,7 +780,7 @@ pub fn make_front(cfg: &DevCfg, env: Env, session: Option<&Value>) -> Result<Box
     macro_rules! mk {
         ($p:literal, $g:literal) => {
             match cfg.front {
-                FrontKind::Nb => Ok(Box::new(NbFront::<$p, $g>::new(cfg, env, session)?) as Box<dyn Front>),
+                FrontKind::Nb => Ok(Box::new(NbFront::<$p, $g, 256>::new(cfg, env, session)?) as Box<dyn Front>),
                 _ => Ok(Box::new(AsyncFront::<$p, $g>::new(cfg, env, session)?) as Box<dyn Front>),
             }
         };
@@ -752,7 +788,9 @@ pub fn make_front(cfg: &DevCfg, env: Env, session: Option<&Value>) -> Result<Box
     match (cfg.front, cfg.board) {
         (FrontKind::AsyncBuf64, (14, 0)) => return Ok(Box::new(AsyncFront::<14, 0, 64>::new(cfg, env, session)?) as Box<dyn Front>),
         (FrontKind::AsyncBuf255, (14, 0)) => return Ok(Box::new(AsyncFront::<14, 0, 255>::new(cfg, env, session)?) as Box<dyn Front>),
-        (FrontKind::AsyncBuf64 | FrontKind::AsyncBuf255, other) => return Err(format!("small radio buffers are only monomorphised for board (14, 0), not {other:?}")),
+        (FrontKind::NbBuf64, (14, 0)) => return Ok(Box::new(NbFront::<14, 0, 64>::new(cfg, env, session)?) as Box<dyn Front>),
+        (FrontKind::NbBuf255, (14, 0)) => return Ok(Box::new(NbFront::<14, 0, 255>::new(cfg, env, session)?) as Box<dyn Front>),
+        (FrontKind::AsyncBuf64 | FrontKind::AsyncBuf255 | FrontKind::NbBuf64 | FrontKind::NbBuf255, other) => return Err(format!("small radio buffers are only monomorphised for board (14, 0), not {other:?}")),
         _ => {}
     }
     match cfg.board {
